@@ -55,11 +55,13 @@ def boundaries(recs):
 
 
 def frags_for(recs, k, seed):
-	"""fragments of the first k octets: cut at every message boundary (F18 guard) and at a few seeded inner points"""
+	"""fragments of the first k octets: cut after every message without framing headers (F18 guard), at the other message boundaries half the time, and at a few seeded inner points"""
 	import random
 	rng = random.Random(seed * 7919 + k)
 	s = b''.join(r.wire for r in recs)[:k]
-	cuts = {b for b in boundaries(recs) if b < k}
+	# F18 guard: a message without Content-Length / chunked must end its read; the other boundaries are cut only half the time
+	allb = rng.random() < 0.5
+	cuts = {b for r, b in zip(recs, boundaries(recs)) if b < k and (allb or r.framing == 'none')}
 	for _ in range(rng.choice((0, 1, 3, 8))):
 		if k > 1:
 			cuts.add(rng.randrange(1, k))
